@@ -99,8 +99,24 @@ func compare(n *ir.E, e *yang.Entry, path string, w What, d map[string]bool) {
 		if k := KindOf(e); w.Shape && k != n.Kind {
 			add("kind %s, want %s", k, n.Kind)
 		}
+		if w.Shape {
+			// the kind predicates say what the kind is
+			is := map[string]bool{"leaf": e.IsLeaf(), "leaf-list": e.IsLeafList(), "list": e.IsList(), "choice": e.IsChoice(), "case": e.IsCase()}
+			for k, v := range is {
+				if v != (k == n.Kind) {
+					add("Is-predicate for %s says %v on a %s", k, v, n.Kind)
+				}
+			}
+			if n.Kind == "container" && !e.IsContainer() {
+				add("IsContainer is false on a container")
+			}
+			if leafish := n.Kind == "leaf" || n.Kind == "leaf-list"; e.IsDir() == leafish && n.Kind != "rpc" && n.Kind != "anydata" && n.Kind != "anyxml" {
+				add("IsDir says %v on a %s", e.IsDir(), n.Kind)
+			}
+		}
 		if w.NS && !n.Implicit {
-			if ns := strings.TrimPrefix(safe(func() string { return e.Namespace().Name }), "urn:"); ns != n.NS {
+			ns := strings.TrimPrefix(safe(func() string { return e.Namespace().Name }), "urn:")
+			if ns != n.NS {
 				add("namespace %q, want %q", ns, n.NS)
 			}
 			im := safe(func() string {
@@ -112,6 +128,13 @@ func compare(n *ir.E, e *yang.Entry, path string, w What, d map[string]bool) {
 			})
 			if im != n.NS {
 				add("instantiating module %q, want %q", im, n.NS)
+			}
+			// asked a second time, the answers are the same
+			if ns2 := strings.TrimPrefix(safe(func() string { return e.Namespace().Name }), "urn:"); ns2 != ns {
+				add("namespace %q when asked again, %q before", ns2, ns)
+			}
+			if m2, err := e.InstantiatingModule(); err == nil && m2 != im {
+				add("instantiating module %q when asked again, %q before", m2, im)
 			}
 		}
 		if w.RO {
